@@ -302,6 +302,34 @@ def check_requirement(prog, sem, rq):
             for t in thens:
                 if not any(_dom_stmt(f, lp, t) for lp in good):
                     return False, 'in %s the validating loop does not dominate %s (line %d)' % (f.q, rq['before'], t.l)
+            if rq.get('same_key_as'):
+                # the validating loop must test the element under the same key (accessor) the later call is given
+                from ..sem import Flow
+                flw = Flow(Sem(prog), f)
+
+                def accessors(node):
+                    out = set()
+                    for o in flw.origins(node):
+                        x = o[2] if o[0] == 'call' and len(o) > 2 else None
+                        if x is not None and x.k == 'call' and x.get('member') and x.c and not real_args(x):
+                            o = unwrap(x.c[0])
+                            if o.k == 'ref' and o.decl.get('kind') in ('local', 'param') and (x.callee or {}).get('cls', '').startswith('nix::') and not (x.callee or {}).get('cls', '').startswith('nix::hdf5'):
+                                out.add(x.callee.get('name'))
+                    return out
+                later = set()
+                for c in f.calls(name=rq['same_key_as']):
+                    for a in real_args(c):
+                        later |= accessors(a)
+                guard = set()
+                for lp in good:
+                    for i in lp.walk():
+                        if i.k == 'if' and i.c[2] is not None and i.c[3] is not None and any(x.k == 'throw' for x in i.c[3].walk()):
+                            guard |= accessors(i.c[2])
+                if not later:
+                    return False, 'in %s no call of %s receives a key of the argument elements' % (f.q, rq['same_key_as'])
+                if not later <= guard:
+                    return False, 'in %s the validating loop tests the elements by %s() but %s is later given %s(): an element that passes the test under one key can still be rejected under the other, after the old state was removed' % (
+                        f.q, '/'.join(sorted(guard)) or '?', rq['same_key_as'], '/'.join(sorted(later)))
     return True, ''
 
 
